@@ -1,12 +1,14 @@
 import TrippyVerif.Gen.PktDispatch
 import TrippyVerif.Model.StrategyIO
 import TrippyVerif.Model.Checksum
+import TrippyVerif.Model.Ext
 /-
 Line-protocol driver: one request per input line, one answer per output line.
 The Rust harness (`/verif/harness`, binary `tvh`) runs the real trippy code on the same
 requests; `/verif/check` diffs the two answer streams.
 
   pkt <type> <fn> <hexbuf> <arg>      a generated packet accessor (C12, C04)
+  ext split|te4|te6|du4|du6|exts …          RFC 4884 / 4950 extension parsing (C14)
   cksum <fn> <hexdata> <hexsrc> <hexdst>   the six checksum entry points (C13)
   st cfg … / st it …                  the tracing state machine (stateful; C03 C06 C07 C08 C09)
 -/
@@ -24,6 +26,7 @@ def step (d : DState) (line : String) : DState × String :=
       match Pkt.dispatch ns fn b arg with
       | some s => (d, s)
       | none => (d, "bad-op")
+  | "ext" :: rest => (d, (Ext.handle rest).getD "bad-op")
   | "cksum" :: rest => (d, (Cksum.handle rest).getD "bad-op")
   | "st" :: args =>
     let (s', out) := Strat.stepLine d.st args
